@@ -83,6 +83,9 @@ def corpus():
                                 ["fetch", 7, False, "pull"]]))             # commit with a ghost parent: refused
     out.append(_case(U_A, [2], [["fetch", 4, False, "push"], ["commit", 5]], stacked=False))   # unstacked: accepted
     out.append(_case(U_M, [1], [["commit", 2], ["commit", 3], ["fetch", 4, False, "pull"], ["commit", 5], ["commit", 6]]))
+    # regression inputs of the former finding C08-stacked-merge-commit-heads (merge commits into a stacked branch)
+    out.append(_case(U_M, [0], [["commit", 1], ["commit", 2], ["commit", 3], ["commit", 4], ["commit", 5]], tv="smart"))
+    out.append(_case(U_M, [2], [["fetch", 1, False, "fetch"], ["commit", 3], ["commit", 4], ["commit", 5]]))
     out.append(_case(U_M, [2], [["fetch", 5, True, "fetch"], ["fetch", 6, False, "pull"]], sf="pack-0.92"))
     out.append(_case(U_M, [2], [["commit", 4], ["fetch", 0, False, "all"]], tv="smart"))
     return [c for c in out if _legal(c)]
@@ -127,8 +130,7 @@ def _random_case(rng, u):
     vis = set(C.anc_present(g, set(), fb))
     ops = []
     for _ in range(rng.randint(1, 5)):
-        can = [c for c in range(n) if c not in vis and all(p >= n or p in vis for p in g[c])
-               and (not stacked or len([p for p in g[c] if p < n]) < 2)]
+        can = [c for c in range(n) if c not in vis and all(p >= n or p in vis for p in g[c])]
         if can and sf == "2a" and rng.random() < 0.5:      # (a 2a commit has a rich root: not the pack-0.92 source's revision)
             c = rng.choice(can)
             ops.append(["commit", c])
@@ -239,23 +241,8 @@ def oracle(case, obs):
 
 
 def finding_matches(fid, case, obs, why):
-    if fid != "C08-stacked-merge-commit-heads":
-        return False
-    ks = C.stacked_merge_commits(case)
-    if not ks:
-        return False
-    # only the symptoms of that defect (spurious per-file versions), at or after the merge commit
-    for part in why.split("; "):
-        if not part.startswith("step "):
-            return False
-        k = int(part.split(":")[0][5:])
-        if k < ks[0]:
-            return False
-        if not any(s in part for s in ("check: inconsistent_parents", "testament_bad", "textparents_bad", "invariant: ")):
-            return False
-        if "invariant: " in part and "differs from the parents but is not local" not in part:
-            return False
-    return True
+    # C08-stacked-merge-commit-heads is fixed (/repo 492ef0d): nothing is excused any more
+    return False
 
 
 def nontrivial(case, obs):
